@@ -49,6 +49,8 @@ func parentOf(path string) string {
 }
 
 type tick struct{}
+type tock struct{} // a second event type; every owner subscribes to it and then explicitly unsubscribes from a third one
+type tack struct{}
 
 func scenario(p params, bounds []int) *vexp.Scenario {
 	return &vexp.Scenario{
@@ -70,6 +72,10 @@ func scenario(p params, bounds []int) *vexp.Scenario {
 				if p.owns {
 					s.Launch = func(a *vsys.Act, ctx vivid.ActorContext) {
 						ctx.EventStream().Subscribe(ctx, tick{})
+						ctx.EventStream().Subscribe(ctx, tock{})
+						// a type nobody else holds: this actor is its last subscriber when it explicitly leaves it again
+						ctx.EventStream().Subscribe(ctx, tack{})
+						ctx.EventStream().Unsubscribe(ctx, tack{})
 						ctx.Scheduler().Loop(ctx.Ref(), time.Second, vsys.Msg{ID: "loop"}, vivid.WithSchedulerReference("L"))
 						// ... and a Once job that has already fired when the actor dies (its key sorts before the Loop's)
 						ctx.Scheduler().Once(ctx.Ref(), time.Millisecond, vsys.Msg{ID: "once"}, vivid.WithSchedulerReference("A"))
@@ -256,6 +262,19 @@ func scenario(p params, bounds []int) *vexp.Scenario {
 					}
 				}
 			}
+			// a termination notice, to whomever, comes only after the actor and all its descendants have been reported terminated
+			for _, en := range w.Entries {
+				if en.Type != "OnKilled" || en.Detail == en.Actor {
+					continue
+				}
+				for _, n := range all {
+					if under(n, en.Detail) && under(n, killRoot) {
+						if k := killedAt[n]; len(k) == 0 || k[0] > en.Seq {
+							x.Fail("notice-after-termination", "%s received OnKilled(%s) before %s was reported terminated (the notice must follow the termination of the whole subtree)", en.Actor, en.Detail, n)
+						}
+					}
+				}
+			}
 			for wp, mm := range expectNotices {
 				cnt := 0
 				for _, en := range w.EntriesOf(wp) {
@@ -312,10 +331,17 @@ func scenario(p params, bounds []int) *vexp.Scenario {
 						x.Fail("jobs-released", "terminated %s still holds scheduler references %v", d.Path, d.Jobs)
 					}
 				}
+				nDeadBeforePub := len(w.PubsOf("DeathLetterEvent"))
 				w.Sys.EventStream().Publish(w.Sys, tick{})
+				w.Sys.EventStream().Publish(w.Sys, tock{})
 				vrt.QuiesceNoTimers()
+				for _, pb := range w.PubsOf("DeathLetterEvent")[nDeadBeforePub:] {
+					if strings.Contains(pb.Detail, "tick") || strings.Contains(pb.Detail, "tock") {
+						x.Fail("subscriptions-released", "an event published after the termination was still routed to a terminated subscriber (dead letter %s)", pb.Detail)
+					}
+				}
 				for _, en := range w.Entries[nEntries:] {
-					if strings.Contains(en.Type, "tick") && len(killedAt[en.Actor]) > 0 && !reg[en.Actor] {
+					if (strings.Contains(en.Type, "tick") || strings.Contains(en.Type, "tock")) && len(killedAt[en.Actor]) > 0 && !reg[en.Actor] {
 						x.Fail("subscriptions-released", "terminated %s still received a published event", en.Actor)
 					}
 				}
